@@ -14,15 +14,15 @@ from py2coq_core import *
 # (file, class, reset method, fields that need no reset with the reason)
 TARGETS = [
     ('bardolph/parser/parse.py', 'Parser', 'parse', {
-        '_lexer': 'never read',
-        '_command_map': 'table of bound methods, never written after construction',
-        '_token_trace': 'debug switch, never written after construction',
+        '_lexer': 'never-read',
+        '_command_map': 'constant: table of bound methods, never written after construction',
+        '_token_trace': 'constant: debug switch, never written after construction',
         '_op_code': 'written by _action before every read in _all_operand/_default_operand/_operand_list/_zone_range',
         '_context': 'cleared through Context.clear (checked separately)',
         '_code_gen': 'cleared through CodeGen.clear (checked separately)',
     }),
     ('bardolph/parser/context.py', 'Context', 'clear', {
-        '_loop_depth': 'never read',
+        '_loop_depth': 'never-read',
     }),
     ('bardolph/parser/code_gen.py', 'CodeGen', 'clear', {}),
     ('bardolph/vm/machine.py', 'Machine', 'reset', {
@@ -32,18 +32,18 @@ TARGETS = [
         '_call_stack': 'reset through CallStack.reset',
         '_vm_io': 'reset through VmIo.reset',
         '_vm_math': 'reset through VmMath.reset',
-        '_vm_discover': 'stateless: reads registers and call stack only',
-        '_fn_table': 'table of bound methods, never written after construction',
+        '_vm_discover': 'constant: stateless helper (reads registers and call stack only), never re-assigned',
+        '_fn_table': 'constant: table of bound methods, never written after construction',
         '_keep_running': 're-armed by prepare() when a run is started and in the finally clause of run',
     }),
     ('bardolph/vm/machine.py', 'Registers', 'reset', {}),
     ('bardolph/vm/vm_io.py', 'VmIo', 'reset', {
-        '_call_stack': 'shared object reset by Machine.reset',
-        '_reg': 'shared object reset by Machine.reset',
+        '_call_stack': 'constant: shared object reset by Machine.reset',
+        '_reg': 'constant: shared object reset by Machine.reset',
     }),
     ('bardolph/vm/vm_math.py', 'VmMath', 'reset', {
-        '_call_stack': 'shared object reset by Machine.reset',
-        '_reg': 'shared object reset by Machine.reset',
+        '_call_stack': 'constant: shared object reset by Machine.reset',
+        '_reg': 'constant: shared object reset by Machine.reset',
     }),
 ]
 
@@ -58,6 +58,7 @@ def self_attr(node):
     return node.attr if (isinstance(node, ast.Attribute) and isinstance(node.value, ast.Name) and node.value.id == 'self') else None
 
 
+# assigning a fresh container (deque(), {}, [], SymbolTable() ...) re-initialises the field just like .clear()
 def assigned_attrs(fn):
     out = set()
     for n in ast.walk(fn):
@@ -69,6 +70,32 @@ def assigned_attrs(fn):
                     if a:
                         out.add(a)
     return out
+
+
+def attr_uses(cls, attr):
+    """(number of reads, number of writes outside __init__) of self.<attr> in the class"""
+    reads = writes = 0
+    for fn in cls.body:
+        if not isinstance(fn, ast.FunctionDef):
+            continue
+        for n in ast.walk(fn):
+            if isinstance(n, ast.Attribute) and self_attr(n) == attr:
+                if isinstance(n.ctx, ast.Load):
+                    reads += 1
+                elif fn.name != '__init__':
+                    writes += 1
+    return reads, writes
+
+
+def exemption_holds(cls, attr, reason):
+    """the checkable kinds of exemption: never-read (no load anywhere in the class; augmented assignments count as
+    writes only) and constant (no store outside __init__)"""
+    reads, writes = attr_uses(cls, attr)
+    if reason.startswith('never-read'):
+        return reads == 0
+    if reason.startswith('constant:'):
+        return writes == 0
+    return True
 
 
 def reset_effects(cls, method, seen=None):
@@ -113,7 +140,7 @@ def gen_reset(repo):
         for a in sorted(init):
             if a in reset:
                 kind = 'reset'
-            elif a in allow:
+            elif a in allow and exemption_holds(cls, a, allow[a]):
                 kind = 'exempt'
             else:
                 kind = 'GAP'
